@@ -4,6 +4,8 @@ import (
 	"fmt"
 	"math"
 	"strings"
+	"sync"
+	"sync/atomic"
 	"testing"
 	"time"
 
@@ -302,6 +304,93 @@ func TestVerifShedder(t *testing.T) {
 				}
 			}
 			return vrt.Step{Canon: s.canon()}
+		})
+	}
+}
+
+// Arrivals and completions on different goroutines: whatever the interleaving, once every
+// admitted request has reported Pass or Fail the in-flight count is back at zero (and never
+// negative on the way).
+func TestVerifShedderConcurrent(t *testing.T) {
+	defer vrt.WriteReport()
+	logx.Disable()
+	DisableLog()
+	stat.SetReporter(nil)
+	if !vrt.Shard(17) {
+		return
+	}
+	bound := 2
+	if vrt.Thorough() {
+		bound = 3
+	}
+	for _, kind := range []string{"allow|pass", "allow|fail", "allow|pass|pass", "allow|allow|pass"} {
+		kind := kind
+		vrt.Explore(vrt.Options{Name: "shedder/concurrent/" + kind, Bound: bound, Prune: true, Budget: vrt.FairBudget(1)}, func(r *vrt.Run) {
+			systemOverloadChecker = func(int64) bool { return false }
+			sh := NewAdaptiveShedder(WithWindow(shWindow), WithBuckets(shBuckets), WithCpuThreshold(shCPU)).(*adaptiveShedder)
+			// two requests already admitted
+			var open []Promise
+			for i := 0; i < 2; i++ {
+				p, err := sh.Allow()
+				if err != nil {
+					r.Failf("Allow: %v", err)
+					return
+				}
+				open = append(open, p)
+			}
+			vrt.Advance(3 * time.Millisecond)
+			var mu sync.Mutex
+			var wg sync.WaitGroup
+			next := 0
+			var admitted []Promise
+			minFlying := int64(0)
+			for _, role := range strings.Split(kind, "|") {
+				role := role
+				wg.Add(1)
+				go func() {
+					defer wg.Done()
+					switch role {
+					case "allow":
+						if p, err := sh.Allow(); err == nil {
+							mu.Lock()
+							admitted = append(admitted, p)
+							mu.Unlock()
+						}
+					default:
+						mu.Lock()
+						p := open[next]
+						next++
+						mu.Unlock()
+						if role == "pass" {
+							p.Pass()
+						} else {
+							p.Fail()
+						}
+					}
+					if f := atomic.LoadInt64(&sh.flying); f < 0 {
+						mu.Lock()
+						if f < minFlying {
+							minFlying = f
+						}
+						mu.Unlock()
+					}
+				}()
+			}
+			wg.Wait()
+			for _, p := range open[next:] {
+				p.Pass()
+			}
+			for _, p := range admitted {
+				p.Pass()
+			}
+			got := atomic.LoadInt64(&sh.flying)
+			r.Outcome("flying=%d", got)
+			if got != 0 {
+				r.Failf("every admitted request has reported Pass or Fail, but the in-flight count is %d", got)
+			}
+			if minFlying < 0 {
+				r.Failf("the in-flight count went negative (%d)", minFlying)
+			}
 		})
 	}
 }
